@@ -121,7 +121,7 @@ theorem NTT_gen (fuel : Nat) (hf : 64 ≤ fuel) (hp : Heap) (self : NTT_Goldiloc
   unfold NTT_NTT
   rw [hc0, hs0]
   simp only [Bool.or_false, Bool.false_eq_true, if_false, hclamp, hgt1, hdiv, hmod, hres, beq_self_eq_true, if_true, hdst,
-    hcnt, Heap.alloc_fst, Heap.alloc_snd]
+    add_toU64_ite, toU64_int_zero, BitVec.add_zero, hcnt, Heap.alloc_fst, Heap.alloc_snd]
   have h1n : (1#64 : BitVec 64).toNat = 1 := rfl
   rw [h1n, rangeM_one]
   unfold NTT_NTT_loop2
@@ -186,7 +186,10 @@ theorem INTT_gen (fuel : Nat) (hf : 64 ≤ fuel) (hp : Heap) (self : NTT_Goldilo
   rw [hm]
   unfold NTT_INTT
   rw [hc0, hs0]
-  simp only [Bool.or_false, Bool.false_eq_true, if_false, hdst, bind_some_id]
+  simp only [Bool.or_false, Bool.false_eq_true, if_false, bind_some_id]
+  -- the destination selection, however it is written (if / else on a local, `?:` on `dst != NULL`, …)
+  ptr_norm at hdst ⊢
+  simp only [hdst]
   exact h
 
 /-- what the hand model's constructor fixes of `s` and `extension` -/
